@@ -160,13 +160,15 @@ public:
 
     SpVecFP<P> operator*(const P &a) const {
         SpVecFP<P> res(p);
+        // reduce the scalar first, otherwise value * a may overflow P
+        P a_mod_p = a % p;
         auto it = entries.begin(), it_e = entries.end();
         while (it != it_e) {
             entry_type entry = *it;
             std::size_t index = boost::get<0>(entry);
             P value = boost::get<1>(entry);
 
-            P v = (value * a) % p;
+            P v = (value * a_mod_p) % p;
             while (v < 0)
                 v += p;   // make [-i]_p = [p-i]_p
             while (v >= p)
